@@ -61,6 +61,7 @@ func (t *Table) Def() (*sql.CreateTableStmt, error) {
 //  the value
 // If the callback returns true (done) the scan will be stopped.
 func (t *Table) Scan(cb TableScanCB) error {
+	defer t.db.beginWalk()()
 	root, err := t.db.openTable(t.root)
 	if err != nil {
 		return err
@@ -89,6 +90,7 @@ func (t *Table) Scan(cb TableScanCB) error {
 // that should be the same.
 // See Table.Scan comments about the Record
 func (t *Table) Rowid(rowid int64) (Record, error) {
+	defer t.db.beginWalk()()
 	root, err := t.db.openTable(t.root)
 	if err != nil {
 		return nil, err
@@ -139,6 +141,7 @@ func (t *Index) Def() (*sql.CreateIndexStmt, error) {
 // For a WITHOUT ROWID table the columns depend on your table structure.
 // If the callback returns true (done) the scan will be stopped.
 func (in *Index) Scan(cb RecordCB) error {
+	defer in.db.beginWalk()()
 	root, err := in.db.openIndex(in.root)
 	if err != nil {
 		return err
@@ -156,6 +159,7 @@ func (in *Index) Scan(cb RecordCB) error {
 
 // Scan all record matching key
 func (in *Index) ScanEq(key Key, cb RecordCB) error {
+	defer in.db.beginWalk()()
 	root, err := in.db.openIndex(in.root)
 	if err != nil {
 		return err
@@ -181,6 +185,7 @@ func (in *Index) ScanEq(key Key, cb RecordCB) error {
 // If the callback returns true (done) the scan will be stopped.
 // All comments from Index.Scan are valid here as well.
 func (in *Index) ScanMin(from Key, cb RecordCB) error {
+	defer in.db.beginWalk()()
 	root, err := in.db.openIndex(in.root)
 	if err != nil {
 		return err
@@ -202,6 +207,7 @@ func (in *Index) ScanMin(from Key, cb RecordCB) error {
 // You'll have to compensate for DESC columns.
 //
 func (in *Index) ScanRange(from, to Key, cb RecordCB) error {
+	defer in.db.beginWalk()()
 	root, err := in.db.openIndex(in.root)
 	if err != nil {
 		return err
